@@ -1,11 +1,12 @@
 CONSTANTS
+  SeriesFirst = FALSE
   CommitSeqBeforeWrite = FALSE
   FreezeBeforeMetaFlush = FALSE
   AtomicRound = FALSE
   Name = {"m1", "m2"}
-  MaxEntries = 3
+  MaxEntries = 2
   MaxCrash = 2
   MaxFlush = 3
 SPECIFICATION MCSpec
-INVARIANTS AckNotAhead NoLoss
+INVARIANTS AckNotAhead NoLoss SeriesIndexed
 CHECK_DEADLOCK FALSE
